@@ -10,8 +10,11 @@ git -C /repo worktree add -q --detach $ALT/repo HEAD || exit 3
 rsync -a --exclude .build --exclude replays --exclude .git /verif/ $ALT/verif/
 sed -i "s#=> /repo/v4#=> $ALT/repo/v4#" $ALT/verif/harness/go.mod
 cd $ALT/verif && ./vr --build || exit 3
+n=0
 for d in /verif/seeded/C*-[A-Z]; do
   name=$(basename $d)
+  [ -n "${FROM:-}" ] && [[ "$name" < "$FROM" ]] && continue
+  n=$((n+1)); [ $((n % 8)) -eq 0 ] && go clean -cache   # mutated trees fill the build cache quickly
   checks=$(python3 -c "import json;print(' '.join(json.load(open('$d/meta.json')).get('detected_by',[])))")
   [ -z "$checks" ] && { echo "$name (not claimed)"; continue; }
   git -C $ALT/repo apply $d/patch.diff 2>/dev/null || { echo "$name PATCH-DOES-NOT-APPLY"; git -C $ALT/repo reset -q; git -C $ALT/repo checkout -- .; continue; }
